@@ -8,15 +8,15 @@ structure ExprSt where
   unit : Unit := ()
 
 /-- `97.98.99` → `['a','b','c']`; the empty string is the empty list. -/
-def cps? (sep : String) (s : String) : Option (List Char) :=
+def exprCps? (sep : String) (s : String) : Option (List Char) :=
   if s == "" then some [] else (s.splitOn sep).mapM (fun t => t.toNat?.map Char.ofNat)
 
 def strList? (s : String) : Option (List (List Char)) :=
-  if s == "" then some [] else (s.splitOn ";").mapM (cps? ".")
+  if s == "" then some [] else (s.splitOn ";").mapM (exprCps? ".")
 
 def task? (s : String) : Option TaskInfo :=
   match s.splitOn "/" with
-  | [n, a, m] => do pure { name := ← cps? "." n, attrs := ← strList? a, markers := ← strList? m }
+  | [n, a, m] => do pure { name := ← exprCps? "." n, attrs := ← strList? a, markers := ← strList? m }
   | _ => none
 
 def tasks? (s : String) : Option (List TaskInfo) :=
@@ -24,7 +24,7 @@ def tasks? (s : String) : Option (List TaskInfo) :=
 
 def lowerTable? (s : String) : Option (List (List Char × List Char)) :=
   (splitList s).mapM (fun t => match t.splitOn ":" with
-    | [a, b] => do pure (← cps? "." a, ← cps? "." b)
+    | [a, b] => do pure (← exprCps? "." a, ← exprCps? "." b)
     | _ => none)
 
 def showCErr : CErr → String
@@ -48,9 +48,9 @@ def exprHandle (st : ExprSt) (cmd : String) (a : Args) : ExprSt × String :=
   | "expr.eval" =>
     let env? : Option (List (List Char × Bool)) := (splitList (a.get "env")).mapM (fun t =>
       match t.splitOn ":" with
-      | [k, v] => do pure (← cps? "." k, v == "1")
+      | [k, v] => do pure (← exprCps? "." k, v == "1")
       | _ => none)
-    match cps? "," (a.get "cps"), env?, isWord? with
+    match exprCps? "," (a.get "cps"), env?, isWord? with
     | some cs, some env, some isWord =>
       let m (s : List Char) : Bool := match env.find? (·.1 == s) with | some (_, v) => v | none => false
       match compileEval isWord m cs with
@@ -58,14 +58,14 @@ def exprHandle (st : ExprSt) (cmd : String) (a : Args) : ExprSt × String :=
       | .error e => (st, showCErr e)
     | _, _, _ => (st, "bad-op")
   | "expr.table" =>
-    match cps? "," (a.get "cps"), strList? (a.get "idents"), isWord? with
+    match exprCps? "," (a.get "cps"), strList? (a.get "idents"), isWord? with
     | some cs, some ids, some isWord =>
       match truthTable isWord ids cs with
       | .ok bs => (st, "ok:" ++ showBits bs)
       | .error e => (st, showCErr e)
     | _, _, _ => (st, "bad-op")
   | "expr.lex" =>
-    match cps? "," (a.get "cps"), isWord? with
+    match exprCps? "," (a.get "cps"), isWord? with
     | some cs, some isWord =>
       let l := lex isWord cs
       let showTok : Tok → String
@@ -76,7 +76,7 @@ def exprHandle (st : ExprSt) (cmd : String) (a : Args) : ExprSt × String :=
       (st, s!"toks={ts} stop={stop}")
     | _, _ => (st, "bad-op")
   | "expr.select" =>
-    match cps? "," (a.get "cps"), isWord?, tasks? (a.get "tasks"), lowerTable? (a.get "lower") with
+    match exprCps? "," (a.get "cps"), isWord?, tasks? (a.get "tasks"), lowerTable? (a.get "lower") with
     | some cs, some isWord, some tasks, some tbl =>
       let lower (s : List Char) : List Char := match tbl.find? (·.1 == s) with | some (_, v) => v | none => s
       let showSel (r : Except CErr (Option (List Nat))) : String :=
